@@ -12,7 +12,7 @@ GROUPS = [
          drop_flags=["--signed-overflow-check"], flags=["--no-undefined-shift-check", "--no-signed-overflow-check"], allow_no_body=NB),
     dict(name="keycmp_case", harness=H, enforce="keycmp_case", loop_contracts=True, loops=["keycmp_case.bytes"], allow_no_body=NB),
     dict(name="keycmp_nocase", harness=H, enforce="keycmp_nocase", loop_contracts=True, loops=["keycmp_nocase.bytes"], allow_no_body=NB),
-    dict(name="makekey", harness=H, enforce="makekey", loop_contracts=True, loops=["makekey.bytes"], allow_no_body=NB, min_postconditions=2),
+    dict(name="makekey", backends=[[], ["--sat-solver", "cadical"]], harness=H, enforce="makekey", loop_contracts=True, loops=["makekey.bytes"], allow_no_body=NB, min_postconditions=2),
     dict(name="keycmp_exact", harness=H, entry="r_keycmp_exact", allow_no_body=NB, replay=R("r_keycmp_exact"),
          bounded="key length <= 2 bytes (exact equivalence with the specification of key equality)"),
     dict(name="hash_op", harness=H, entry="r_hash_op", allow_no_body=NB, replay=R("r_hash_op"), unwind=6,
